@@ -87,7 +87,7 @@ and line_of (s : Sexp.t) : sline =
 
 (* ---- environment: store with std.len + helper closures, built once ---- *)
 let powf_stub (_ : z) (_ : z) : z = cANON_NAN
-let big_fuel = nat_of_int 200000
+let big_fuel = nat_of_int (try int_of_string (Sys.getenv "VERIF_EXEC_FUEL") with _ -> 3000)
 let chk_fuel = nat_of_int 4000
 
 let dummy_pre = { p_map = O; p_filter = O; p_iter = O; p_int_sum = O; p_float_sum = O;
